@@ -335,6 +335,9 @@ def rule_prune(ctx):
         raise AnalysisError("_check_placeholders: the comparison inside try/except was not found")
     from ..normalize import _returns_to_ifexp
     main = _returns_to_ifexp(tries[0].body)
+    if main is None and len(tries[0].body) == 1 and isinstance(tries[0].body[0], ast.Assign) and isinstance(tries[0].body[0].targets[0], ast.Name) \
+            and len(tries[0].orelse) == 1 and isinstance(tries[0].orelse[0], ast.Return) and norm(tries[0].orelse[0].value) == tries[0].body[0].targets[0].id:
+        main = tries[0].body[0].value        # try: v = <comparison>  except: ...  else: return v
     fbx = _returns_to_ifexp(tries[0].handlers[0].body)
     if main is None or fbx is None:
         raise AnalysisError("_check_placeholders: try body / handler is not a decision between returned values")
@@ -429,16 +432,40 @@ def rule_exclude(ctx):
     if len(ys1) != 1:
         raise AnalysisError("find: expected one yield in the single-file branch")
     from ..flow import facts_at
-    g1 = [("" if tr else "not ") + str(norm(e_)) for e_, tr in facts_at(enclosing_stmt(ys1[0]))]
+    from ..flow import expand_none_facts
+    fnd_flow = Flow(fnd)
+    fa1, vals1 = expand_none_facts(fnd_flow, facts_at(enclosing_stmt(ys1[0])), enclosing_stmt(ys1[0]))
+    g1 = [("" if tr else "not ") + str(norm(e_)) for e_, tr in fa1]
     v1 = str(norm(ys1[0].value))
+    if v1 in vals1:
+        v1 = str(norm(vals1[v1]))        # `single = info` on the one path that does not bind None: the file yielded is `info`
     ok1 = ("not self.is_excluded(%s)" % v1) in g1 and any(x.startswith("IntervalTree.interval_overlaps(%s.times" % v1) for x in g1)
     ctx.ob("FileSet.find.single_file.yield", ok1, "yield guarded by %s" % g1, "interval overlap and `not self.is_excluded(file_info)`: an excluded single file is omitted like any other",
            node=ys1[0], func=fnd, witness=None if ok1 else {"FileSet": "one file, time_coverage given, exclude=[(2018-01-02, 2018-01-03)]", "'2018-01-05' in fs": True})
     e = ctx.func(FILESET, "FileSet.is_excluded")
     body = [norm(s) for s in e.body]
     p = e.params[1]
-    want = ["if %s.path in self._exclude_files:\n    return True" % p, "if self._exclude_times is None:\n    return False", "return %s.times in self._exclude_times" % p]
-    ctx.ob("FileSet.is_excluded", body == want, "%s" % body, "name in the exclusion set -> True; no period tree -> False; else `file.times in tree` (interval membership)", node=e.node, func=e)
+    # truth table over (name listed, no period tree, times inside a period): True iff listed or (tree and inside); without a tree the
+    # membership test must not be evaluated at all (None does not support `in`)
+    from ..order import eval_function
+    wrong = None
+    for a_, b_, c_ in itertools.product((False, True), repeat=3):
+        env_ = {"%s.path in self._exclude_files" % p: a_, "%s.path not in self._exclude_files" % p: not a_, "self._exclude_times is None": b_,
+                "self._exclude_times is not None": not b_, "not self._exclude_times": b_, "self._exclude_times": not b_}
+        if not b_:
+            env_["%s.times in self._exclude_times" % p] = c_
+            env_["%s.times not in self._exclude_times" % p] = not c_
+        try:
+            got_ = eval_function(e, ["<file>"], env=env_)
+        except AnalysisError as ex_:
+            if b_ and "_exclude_times" in str(ex_):
+                got_ = "membership in a missing tree evaluated"
+            else:
+                raise AnalysisError("is_excluded outside the model: %s" % ex_)
+        if got_ is not (a_ or (not b_ and c_)) and wrong is None:
+            wrong = {"name listed": a_, "period tree": not b_, "times in a period": c_, "is_excluded": got_}
+    ctx.ob("FileSet.is_excluded", wrong is None, "%s" % body, "name in the exclusion set -> True; no period tree -> False; else `file.times in tree` (interval membership)", node=e.node, func=e,
+           witness=wrong)
     x = ctx.func(FILESET, "FileSet.exclude_times")
     okx = False
     for st in walk_no_nested(x.node):
